@@ -34,6 +34,24 @@ def step (q : Q) (line : String) : Q × String :=
       let (q', r) := q.append (payload id len) (buf = "1")
       (q', showRes r)
     | _, _ => (q, "bad-op")
+  | ["psend", ok] =>
+    -- one SendWrite round of the node processor (ok = 0: the shard writer fails, retryable)
+    let (q', sent) := sendWrite q [] (ok != "0")
+    (q', match q.current, sent with
+      | .block b, some _ => s!"sent {blockId b} {b.length}"
+      | .block _, none => "fail"
+      | .eof, _ => "eof"
+      | r, _ => showRes r)
+  | ["psendmid", id, len] => match id.toNat?, len.toNat? with
+    -- a SendWrite round with an append landing between its look at the head and its reaction
+    | some id, some len =>
+      match q.current with
+      | .eof =>
+        let r := (q.append (payload id len) false).2
+        ((sendWrite q [(payload id len, false)] true).1, s!"eof mid={showRes r}")
+      | .block b => ((sendWrite q [] true).1, s!"sent {blockId b} {b.length} mid=none")
+      | r => (q, showRes r)
+    | _, _ => (q, "bad-op")
   | ["current"] => (q, showRes q.current)
   | ["advance"] => let (q', r) := q.advance; (q', showRes r)
   | ["empty"] => (q, if q.empty then "true" else "false")
